@@ -209,7 +209,7 @@ func boundaryID(r *rand.Rand, near *id128) id128 {
 	return id128{pick(), pick()}
 }
 
-func runSeq(run *ev.Run, caseID string, nSess int, seq []struct {
+func runSeq(run *ev.Run, caseID string, nSess int, mid *rand.Rand, seq []struct {
 	k  int
 	id id128
 }) {
@@ -225,6 +225,33 @@ func runSeq(run *ev.Run, caseID string, nSess int, seq []struct {
 			continue
 		}
 		probs = append(probs, w.announce(a.k, a.id)...)
+		if len(probs) > 0 {
+			break
+		}
+		if mid == nil {
+			continue
+		}
+		// between announcements: operations by every session (who is primary NOW), and
+		// Flush RPCs carrying ids around the maximum - a Flush is not an announcement: it
+		// must leave the reported maximum and the primary as they are
+		if mid.Intn(2) == 0 {
+			probs = append(probs, w.probe()...)
+			run.Count("probes_between_announcements", 1)
+		}
+		if len(probs) == 0 && w.max != nil && mid.Intn(3) == 0 {
+			m := *w.max
+			fid := []id128{{m.hi + 1, 0}, {m.hi, m.lo + 1}, m, {m.hi, m.lo - 1}, {m.hi + 1, m.lo - 1}}[mid.Intn(5)]
+			req := &spb.FlushRequest{NetworkInstance: &spb.FlushRequest_All{All: &spb.Empty{}}, Election: &spb.FlushRequest_Id{Id: fid.pb()}}
+			if mid.Intn(4) == 0 {
+				req.Election = &spb.FlushRequest_Override{Override: &spb.Empty{}}
+			}
+			_, ferr, _ := drv.Flush(w.srv, req)
+			w.trace = append(w.trace, fmt.Sprintf("Flush(all) with %v -> %v", req.GetElection(), ferr))
+			run.Count("flushes_between_announcements", 1)
+			if len(probs) == 0 && mid.Intn(2) == 0 {
+				probs = append(probs, w.probe()...)
+			}
+		}
 		if len(probs) > 0 {
 			break
 		}
@@ -306,7 +333,11 @@ func TestCheck(t *testing.T) {
 		if !run.Want(j.id) {
 			return
 		}
-		runSeq(run, j.id, j.n, j.seq)
+		var mid *rand.Rand
+		if i%2 == 1 {
+			mid = run.Rand("mid:" + j.id)
+		}
+		runSeq(run, j.id, j.n, mid, j.seq)
 		run.Distinct(fmt.Sprint(j.seq))
 	})
 
@@ -321,7 +352,7 @@ func TestCheck(t *testing.T) {
 	}
 	run.Sample(map[string]any{"lattice_halves": []string{"0", "1", "2", "2^64-1"}, "example": "pair:6:9 = s0 announces (1,2), s1 announces (2,1): reply to s1 must be (2,1) and only s1's operation is programmed"})
 	run.CollectRaces()
-	run.Finish("(a) every ordered pair (by distinct sessions and by one session) and triple of the 16 ids whose 64-bit halves are in {0,1,2,2^64-1} - exhaustive for that lattice; (b) random sequences of 2-7 announcements by 2-4 sessions over boundary-structured ids (neighbours +-1 in either half, swapped halves, repeats, decreases, ties); after each announcement the reply must be the running 128-bit maximum, afterwards one operation per session decides who is primary; (c) concurrent announcements by 8 sessions on separate direct streams under the race detector, history checked with porcupine against a max-register, then the same probe at quiescence. Distinct = by announcement sequence", 500, false)
+	run.Finish("(a) every ordered pair (by distinct sessions and by one session) and triple of the 16 ids whose 64-bit halves are in {0,1,2,2^64-1} - exhaustive for that lattice; (b) random sequences of 2-7 announcements by 2-4 sessions over boundary-structured ids (neighbours +-1 in either half, swapped halves, repeats, decreases, ties); after each announcement the reply must be the running 128-bit maximum, afterwards one operation per session decides who is primary; in every other sequence the sessions also operate BETWEEN announcements (the primary at that moment, nobody else, is accepted) and Flush RPCs carrying ids above / equal to / below the maximum are interleaved (a Flush is not an announcement: later replies still carry the maximum ANNOUNCED); (c) concurrent announcements by 8 sessions on separate direct streams under the race detector, history checked with porcupine against a max-register, then the same probe at quiescence. Distinct = by announcement sequence", 500, false)
 }
 
 func concurrent(run *ev.Run, caseID string) {
